@@ -943,9 +943,24 @@ class Interp:
 
     def slice(self, obj, lo, hi, st):
         lo, hi, st = (concretize(x) if is_sym(x) else x for x in (lo, hi, st))
-        if any(is_sym(x) for x in (lo, hi, st)):
-            raise Unsupported("symbolic slice bound")
         obj = payload(obj)
+        if any(is_sym(x) for x in (lo, hi, st)):
+            # a symbolic bound over a sequence of known length takes finitely many relevant values: fork on them
+            if isinstance(obj, (SStr, str, list, tuple)) and not is_sym(st):
+                n = len(obj)
+
+                def pick(b):
+                    if not isinstance(b, SInt):
+                        return b
+                    for v in range(-n - 1, n + 2):
+                        if self.branch(SBool(b.t == v)):
+                            return v
+                    if self.branch(SBool(b.t > n + 1)):
+                        return n + 1
+                    return -n - 1
+                lo, hi = pick(lo), pick(hi)
+            else:
+                raise Unsupported("symbolic slice bound")
         if isinstance(obj, SDecStr):
             obj = self.materialize(obj)
         if isinstance(obj, SStr):
